@@ -454,3 +454,18 @@ def crypto_events(out, kind):
 def spec_hash(name, data):
     import hashlib as _h
     return _h.new(name, data).digest()
+
+
+def spec_b64u_ok_text(s):
+    """The text decodes as (unpadded) base64url."""
+    import base64 as _b, binascii as _ba
+    if not isinstance(s, str):
+        return False
+    try:
+        b = s.encode("utf-8")
+        if b"+" in b or b"/" in b:
+            return False
+        _b.b64decode(b + b"=" * (-len(b) % 4), b"-_", validate=True)
+        return True
+    except (_ba.Error, ValueError):
+        return False
